@@ -3,6 +3,18 @@
 import json, os
 V = os.path.dirname(os.path.abspath(__file__))
 CLAIMED = {
+ "C02": dict(text="Bounded symbolic execution of the real tangent code on arcs with symbolic points (closed-form tangent oracle) and of the real matrix assembly on catalogue tissues with one symbolic unit tangent per (interface, junction); every coefficient, row and column obligation is an SMT query over all values, with the known defect regions split off by the solver.",
+             note="Floats as reals; circle-fit libraries stubbed by the circumcentre contract (the repo's objective is checked to vanish there); 2..5 (9 thorough) points per interface; catalogue topologies only; counterexamples of the tissue-level obligations are replayed with the tangent stub retained.",
+             ref="3/C02"),
+ "C05": dict(text="The real ForceMatrix.solve runs on symbolic matrices; what reaches inv / nnls / lsq_linear / lmfit is captured at the library stub and compared with the definition of the augmented problem; path logic (square/regular/negative) is explored by forking; optimality is reduced to the back-ends' KKT contracts and the multiplier sign.",
+             note="Back-ends are trusted to return a KKT point (documented optimality); inverse modelled by its defining equation; rounding as a bounded perturbation; T3/K3 (T4, K3-n0 thorough) system shapes.",
+             ref="3/C05"),
+ "C10": dict(text="Two-frame series with symbolic tangents and uninterpreted back-ends: store contents after a solve are compared term-by-term with the back-end result, and every bounded call history (symbolic call choices) is compared with a fresh object.",
+             note="Histories: 4 warm-up builds + 1 (quick) / 2 (thorough) free calls + canonical calls; T3 (K3 thorough); tangent stub contract; back-ends deterministic.",
+             ref="3/C10"),
+ "C16": dict(text="Symbolic unit tangents, exact arccos comparison through monotonicity; the flagged-junction set, the excluded interfaces, the -1 re-insertion and the restricted system are each compared with an oracle computed from the tissue description, for every tangent configuration.",
+             note="T3, K3 (K4 thorough); limits 0.5pi..pi, default, inf; cos(limit) is the nearest double; back-end contracts as in C05.",
+             ref="3/C16"),
  "C20": dict(text="Bounded symbolic execution (symx) of the real Cell methods on polygons with 3..8 symbolic vertices; every identity / sign / navigation obligation is decided by z3 on every path, so it holds for all real coordinates inside the bound, not for samples.",
              note="Floats as reals; polygons up to 8 vertices; star-shaped polygons for the sign convention; scipy leastsq (cell centre, unused here) stubbed.",
              ref="3/C20"),
